@@ -295,7 +295,11 @@ var stuckFrame = regexp.MustCompile(`juniper/stream\.\(\*(\w+)\[[^\]]*\]\)\.(\w+
 
 func runStressChild(seed uint64, rounds, ms int, fixed string) stressOutcome {
 	o := stressOutcome{perKind: map[string]int{}, lastR: -1}
-	cmd := exec.Command(os.Args[0], "-test.run=^$")
+	self, err := os.Executable()
+	if err != nil {
+		self = os.Args[0]
+	}
+	cmd := exec.Command(self, "-test.run=^$")
 	cmd.Env = append(os.Environ(), fmt.Sprintf("%s=%d %d %d %s", stressEnv, seed, rounds, ms, fixed))
 	var stdout, stderr bytes.Buffer
 	cmd.Stdout, cmd.Stderr = &stdout, &stderr
@@ -305,7 +309,7 @@ func runStressChild(seed uint64, rounds, ms int, fixed string) stressOutcome {
 		return o
 	}
 	backstop := time.AfterFunc(120*time.Second+time.Duration(ms)*time.Millisecond, func() { cmd.Process.Kill() })
-	err := cmd.Wait()
+	err = cmd.Wait()
 	killed := !backstop.Stop()
 	o.duration = time.Since(start)
 	fail := ""
